@@ -18,6 +18,7 @@ CONSTANTS
   PqRanges = {"mid"}
   Families = {"cfg"}
   PqFamCols = 1
+  U64Check = TRUE
   Emit = FALSE
 INVARIANTS Safety
 CHECK_DEADLOCK FALSE
